@@ -9,6 +9,8 @@ structure Drv where
   st   : St
   dead : Bool
   lastEventTime : Nat := 0   -- harness bookkeeping for the honest radio (`hresched`)
+  configs : List Cfg := []   -- non-empty: a peripheral_latency_configuration_set<> (cfg 100..102)
+  cur : Nat := 0             -- current_configuration_
 
 def cfgOf (n : Nat) : Cfg :=
   if n = 32 then ⟨false, false, false, false, false, true⟩
@@ -16,6 +18,10 @@ def cfgOf (n : Nat) : Cfg :=
 
 def eventsOf (n : Nat) : Events :=
   ⟨n.testBit 0, n.testBit 1, n.testBit 2, n.testBit 3, n.testBit 4, n.testBit 5⟩
+
+/-- cfg 100 = set< ignored, strict_plus >, 101 = set< strict, ignored, default >, 102 = set< strict, strict_plus > -/
+def setOf (n : Nat) : List Cfg :=
+  if n = 100 then [cfgOf 32, cfgOf 20] else if n = 101 then [cfgOf 17, cfgOf 32, cfgOf 31] else [cfgOf 17, cfgOf 20]
 
 def stStr (c : Cfg) (s : St) : String :=
   s!"{s.channelIndex} {s.eventCounter} {s.timeSince} " ++ (if c.pendingTx then toString s.lastLatency else "-")
@@ -29,15 +35,27 @@ def optNat : Option Nat → String
   | some n => toString n
   | none => "assert"
 
+/-- configuration used for printing: a set always has `last_latency_` -/
+def showCfg (d : Drv) : Cfg := if d.configs.isEmpty then d.cfg else asDisarmable d.cfg
+
+def doReset (d : Drv) : Option St :=
+  if d.configs.isEmpty then resetState d.cfg d.st else resetStateSet d.configs d.cur d.st
+
+def doPlan (d : Drv) (l : Nat) (e : Events) (i : Nat) (p : Option Nat) : Option St :=
+  if d.configs.isEmpty then planNext d.cfg d.st l e i p else planNextSet d.configs d.cur d.st l e i p
+
+def doResched (d : Drv) (rc : Bool × Nat) (i : Nat) : Option Resched :=
+  if d.configs.isEmpty then reschedule d.cfg d.st rc i else rescheduleSet d.configs d.cur d.st rc i
+
 def stateful (d : Drv) (r : Option St) : Drv × String :=
   match r with
-  | some s => ({ d with st := s }, stStr d.cfg s)
+  | some s => ({ d with st := s }, stStr (showCfg d) s)
   | none => ({ d with dead := true }, "assert")
 
 def reschedStr (d : Drv) (ok now i : Nat) (showNow : Bool) : Drv × String :=
-  match reschedule d.cfg d.st (ok = 1, now) i with
+  match doResched d (ok = 1, now) i with
   | some r => ({ d with st := r.st },
-      s!"{if r.ret then 1 else 0} {if r.disarm then 1 else 0} {r.pulled} " ++ stStr d.cfg r.st
+      s!"{if r.ret then 1 else 0} {if r.disarm then 1 else 0} {r.pulled} " ++ stStr (showCfg d) r.st
         ++ (if showNow then s!" {now}" else ""))
   | none => ({ d with dead := true }, "assert")
 
@@ -55,17 +73,23 @@ def drvStep (d : Drv) (ws : List String) : Drv × String :=
       | "mul", [x, y] => (d, optNat (dtMul x y))
       | "div", [x, y] => (d, optNat (dtDiv x y))
       | "cfg", [n] =>
-          if n ≤ 32 then ({ cfg := cfgOf n, st := init, dead := false }, "ok") else (d, "bad-op")
-      | "reset", [] => if d.dead then (d, "dead") else stateful { d with lastEventTime := 0 } (resetState d.cfg d.st)
+          if n ≤ 32 then ({ cfg := cfgOf n, st := init, dead := false }, "ok")
+          else if 100 ≤ n ∧ n ≤ 102 then
+            ({ cfg := setCfg (setOf n) 0, st := init, dead := false, configs := setOf n, cur := 0 }, "ok")
+          else (d, "bad-op")
+      | "select", [k] =>
+          if d.dead then (d, "dead")
+          else if k < d.configs.length then ({ d with cur := k, cfg := setCfg d.configs k }, "ok") else (d, "bad-op")
+      | "reset", [] => if d.dead then (d, "dead") else stateful { d with lastEventTime := 0 } (doReset d)
       | "plan", [l, e, i, p, inst] =>
           if d.dead then (d, "dead")
           else if l ≤ 65535 ∧ e < 64 ∧ p < 2 ∧ inst ≤ 65535 then
-            stateful { d with lastEventTime := 0 } (planNext d.cfg d.st l (eventsOf e) i (if p = 1 then some inst else none))
+            stateful { d with lastEventTime := 0 } (doPlan d l (eventsOf e) i (if p = 1 then some inst else none))
           else (d, "bad-op")
       | "timeout", [i] =>
           if d.dead then (d, "dead")
           else match planAfterTimeout d.st i with
-            | some s => ({ d with st := s, lastEventTime := d.st.timeSince }, stStr d.cfg s)
+            | some s => ({ d with st := s, lastEventTime := d.st.timeSince }, stStr (showCfg d) s)
             | none => ({ d with dead := true }, "assert")
       | "hresched", [ok, pm, i] =>
           if d.dead then (d, "dead")
